@@ -415,6 +415,45 @@ def _g_two_versions(rng):
     return [V.Version(GV.spell(rng, a)), other]
 
 
+def _spec_obj(rng):
+    """a Specifier (every operator, wildcard, arbitrary text, an explicit prereleases override) and its spec version"""
+    from packaging import specifiers as SP
+    from gen import versions as GV
+    from gen import specrel as R
+    op, v, wild = R.clause_struct(rng)
+    raw = R.arbitrary_text(rng, R.candidate_near(rng, v)) if op == "===" else None
+    text = R.spell_clause(rng, op, v, wild, raw)
+    ov = rng.choice([None, None, None, True, False])
+    return SP.Specifier(text, prereleases=ov), v
+
+
+def _g_spec_prereleases(rng):
+    return [_spec_obj(rng)[0]]
+
+
+def _cand(rng, v):
+    from packaging import version as V
+    from gen import versions as GV
+    from gen import specrel as R
+    return V.Version(GV.spell(rng, R.candidate_near(rng, v)))
+
+
+def _g_spec_contains(rng):
+    sp, v = _spec_obj(rng)
+    item = _cand(rng, v)
+    if rng.random() < 0.2:
+        item = str(item)                       # _coerce_version on a string
+    return [sp, item, rng.choice([None, None, True, True, False])]
+
+
+def _g_spec_filter(rng):
+    sp, v = _spec_obj(rng)
+    items = [_cand(rng, v) for _ in range(rng.choice([0, 1, 2, 3, 4, 6]))]
+    if rng.random() < 0.2:
+        items = [str(x) if rng.random() < 0.5 else x for x in items]
+    return [sp, items, rng.choice([None, None, None, True, False])]
+
+
 # lean name -> (module, attribute path, argument generator)
 FUNCS = {
     "_parse_letter_version": ("packaging.version", "_parse_letter_version", _g_parse_letter_version),
@@ -458,6 +497,9 @@ FUNCS = {
     "_BaseVersion.__ge__": ("packaging.version", "_BaseVersion.__ge__", _g_two_versions),
     "_BaseVersion.__eq__": ("packaging.version", "_BaseVersion.__eq__", _g_two_versions),
     "Version.is_postrelease": ("packaging.version", "Version.is_postrelease", _g_version_method(0.1)),
+    "Specifier.prereleases": ("packaging.specifiers", "Specifier.prereleases", _g_spec_prereleases),
+    "Specifier.contains": ("packaging.specifiers", "Specifier.contains", _g_spec_contains),
+    "Specifier.filter": ("packaging.specifiers", "Specifier.filter", _g_spec_filter),
 }
 
 
